@@ -3,7 +3,9 @@ pub mod c01;
 pub mod c02;
 pub mod c09;
 pub mod c10;
+pub mod c12;
 pub mod c13;
+pub mod c14;
 pub mod c15;
 
 use crate::report::{Ctx, Report};
@@ -15,7 +17,9 @@ pub fn run(ctx: &Ctx) -> Option<Report> {
         "C02" => c02::run(ctx),
         "C09" => c09::run(ctx),
         "C10" => c10::run(ctx),
+        "C12" => c12::run(ctx),
         "C13" => c13::run(ctx),
+        "C14" => c14::run(ctx),
         "C15" => c15::run(ctx),
         _ => return None,
     })
@@ -27,7 +31,9 @@ pub fn replay(ctx: &Ctx, v: &Value) -> Option<bool> {
         "C02" => c02::replay(ctx, v),
         "C09" => c09::replay(ctx, v),
         "C10" => c10::replay(ctx, v),
+        "C12" => c12::replay(ctx, v),
         "C13" => c13::replay(ctx, v),
+        "C14" => c14::replay(ctx, v),
         "C15" => c15::replay(ctx, v),
         _ => return None,
     })
